@@ -92,7 +92,7 @@ func (r *refFile) apply(o ops.Op) (res hres, eofOK bool, eofMust bool) {
 		if !r.writable {
 			return hres{err: true}, false, false
 		}
-		if r.appendM {
+		if r.appendM && len(b) > 0 { // a zero-length write has no effect, not even on the cursor of an O_APPEND handle
 			r.pos = int64(len(r.data))
 		}
 		r.writeAt(b, r.pos)
